@@ -4,8 +4,8 @@ Model: spec/Ordering.tla transcribes `ufl.sorting.cmp_expr` as coded (explicit s
 action per loop iteration, every terminal comparator) over a universe of terms of depth <= 2 (+3
 deeper ones), plus a second slice of the universe ("repr": float / complex / integer literals whose
 reprs exercise every way `_cmp_terminal_by_repr` decides, including reprs that differ only in the zero
-padding of a digit run such as 1.5 / 1.05) and states the intended meaning: cmp induces a total preorder whose equivalence
-classes are structural equality modulo index/label numbers.
+padding of a digit run such as 1.5 / 1.05) and states the intended meaning: cmp induces a total
+preorder whose equivalence classes are structural equality modulo index/label numbers.
 
 (a) TLC executes the loop for every ordered pair (termination, result in {-1,0,1}, agreement of the
     state machine with the tabulated function) and checks the order laws on every triple.  A law
@@ -953,11 +953,32 @@ def targeted():
     return out
 
 
+def targeted_literals():
+    """Operands that differ only in a literal whose repr differs only in the zero padding of a digit run (the natural
+    keys of _cmp_terminal_by_repr tie), at the top and nested in otherwise identical products / quotients."""
+    f, g = ["coef", 3, []], ["coef", 12, []]
+    out = []
+    for v in (1.5, 1.05, 1.005, 2.25, 2.025):
+        lit = ["lit", v]
+        out += [["bin", "mul", lit, f], ["bin", "mul", f, ["bin", "mul", lit, g]], ["bin", "div", f, lit], ["bin", "max", f, lit]]
+    return out
+
+
 class Pool:
     def __init__(self, keys):
         self.keys = keys
         self.items = []  # dicts: r (recipe), e (expr), sh, fi, depth
-        self._seen = set()
+        self._seen = {}
+
+    def family(self, r):
+        """Add a recipe of a targeted family (or find the equal expression already in the pool) and mark it: all
+        compatible pairs of marked items are tested, whatever the sampling budget."""
+        it = self.add(r, 4)
+        if it is None:
+            e, _ = _try(lambda: build(r))
+            it = self._seen.get(self.keys.skey(e)) if e is not None else None
+        if it is not None:
+            it["fam"] = True
 
     def add(self, r, depth):
         try:
@@ -971,8 +992,8 @@ class Pool:
         k = self.keys.skey(e)
         if k in self._seen:
             return None
-        self._seen.add(k)
         it = {"r": r, "e": e, "sh": sh, "fi": fi, "depth": depth}
+        self._seen[k] = it
         self.items.append(it)
         return it
 
@@ -1030,8 +1051,8 @@ def make_pool(ctx, keys):
     l01 = list(pool.items)
     l1 = [it for it in l01 if it["depth"] == 2]
     grow(l1 if not quick else rng.sample(l1, min(len(l1), 50)), l01, 150 if quick else 900, 150 if quick else 700)
-    for r in targeted():
-        pool.add(r, 4)
+    for r in targeted() + targeted_literals():
+        pool.family(r)
     return pool
 
 
@@ -1062,10 +1083,17 @@ def check_cmp_laws_real(ctx, pool, M, keys, cmp_override=None):
     E = ek[:, None] == ek[None, :]
     S = np.sign(M)
     # -- antisymmetry
+    asym = {}
     for i, j in zip(*np.nonzero(S != -S.T)):
         if i < j:
             a, b = items[int(i)], items[int(j)]
             fp = f"C29:cmp-not-antisymmetric:{type(a['e']).__name__.lower()}+{type(b['e']).__name__.lower()}"
+            asym.setdefault(fp, []).append((int(i), int(j)))
+    for fp, prs in sorted(asym.items()):  # the 2 smallest inputs per class are listed
+        prs.sort(key=lambda p: len(repr(items[p[0]]["r"])) + len(repr(items[p[1]]["r"])))
+        ctx.count("real_pairs_not_antisymmetric", len(prs))
+        for i, j in prs[:2]:
+            a, b = items[i], items[j]
             ctx.violation(fp, f"cmp_expr(a,b)={M[i, j]} but cmp_expr(b,a)={M[j, i]} for a={a['e']}, b={b['e']}", {"mode": "antisym", "a": a["r"], "b": b["r"], "fingerprint": fp})
             found += 1
     # -- cmp = 0 on distinguishable operands
@@ -1144,7 +1172,7 @@ def _try(f):
 
 
 def commut_case(ctx, op, a, b, keys, cmpab=None, swap_bug=False):
-    """One commutativity requirement on real objects.  Returns 'ok' / 'skip' / 'viol'."""
+    """One commutativity requirement on real objects.  Returns 'ok' / 'skip' / 'numbering' / 'viol'."""
     import ufl
     from ufl.algorithms.remove_complex_nodes import remove_complex_nodes
     from ufl.classes import Conj, Inner, Zero
@@ -1189,6 +1217,16 @@ def commut_case(ctx, op, a, b, keys, cmpab=None, swap_bug=False):
     rr, e2 = _try(lambda: remove_complex_nodes(rhs))
     if e1 or e2:
         return "skip"
+    # the real-mode products are built from the operands without their complex nodes: the premise of the property
+    # (distinguishable without index / label numbers) must hold for THOSE (I[j,i] and Re(I)[i,j] become renumberings)
+    for it in (a, b):
+        if "rk" not in it:
+            rx, ex = _try(lambda: remove_complex_nodes(it["e"]))
+            it["rk"] = None if ex else keys.ekey(rx)
+    if a["rk"] is None or b["rk"] is None:
+        return "skip"
+    if a["rk"] == b["rk"]:
+        return "numbering"
     if not same_structure(rl, rr):
         return fail("real-mode", f"real mode: {_short(rl)}  !=  {_short(rr)}")
     if A.ufl_shape != () and not isinstance(lhs, Zero) and not isinstance(rhs, Zero):
@@ -1227,8 +1265,11 @@ def property_part(ctx, keys, swap_bug=False):
         lim = int(budget * share)
         total = len(prs)
         if total > lim:
+            fam = [(i, j) for i, j in prs if items[i].get("fam") and items[j].get("fam")]
             prs = rng.sample(prs, lim)
-        st = {"candidate_pairs": total, "tested": 0, "excluded_numbering_only": 0, "skipped_both_orders_invalid": 0, "violations": 0}
+            have = set(prs)
+            prs += [q for q in fam if q not in have]
+        st = {"candidate_pairs": total, "sampled_pairs": len(prs), "tested": 0, "excluded_numbering_only": 0, "skipped_both_orders_invalid": 0, "violations": 0}
         viol_fp = {}
         for i, j in prs:
             a, b = items[i], items[j]
@@ -1239,6 +1280,9 @@ def property_part(ctx, keys, swap_bug=False):
             r = commut_case(_Quiet(ctx, viol_fp), op, a, b, keys, int(M[i, j]), swap_bug=swap_bug)
             if r == "skip":
                 st["skipped_both_orders_invalid"] += 1
+                continue
+            if r == "numbering":
+                st["excluded_numbering_only"] += 1
                 continue
             st["tested"] += 1
             ctx.evaluated()
@@ -1290,7 +1334,8 @@ def run(ctx, args):
         "integer literals whose reprs tie or differ in every way _cmp_terminal_by_repr distinguishes, e.g. 1.5 / 1.05 / 1.005, and "
         "operators over them) and checks the order laws on every triple; every ordered pair is replayed on the real cmp_expr with shared and unshared sub-objects. real objects: pool = 25 "
         "atoms, all unary/indexing/as_tensor/variable wrappers of them, seeded-random binary/conditional combinations up to depth 3, "
-        "plus a targeted family (as_tensor with partial index binding, then indexed); full cmp matrix (antisymmetry on all ordered "
+        "plus targeted families whose compatible pairs are all tested (as_tensor with partial index binding, then indexed; operands "
+        "that differ only in a literal 1.5 / 1.05 / 1.005, 2.25 / 2.025); full cmp matrix (antisymmetry on all ordered "
         "pairs, transitivity on all triples by boolean closure, cmp=0 only modulo numbering); a+b, a*b (scalar, index notation, "
         "scalar*tensor) and inner on all/sampled compatible pairs. A case is non-trivial when the two operands are structurally "
         "distinct and not merely renumberings of each other (distinct = set of (operation, operand structures))."
